@@ -753,6 +753,12 @@ pub fn probe_framing() -> i32 {
                 if got != want { if report("C14", format!("{}::from_tagged_slice {} (prefix {} + untagged body): {}", $name, hex(&b), hex(pf), if got { "accepted" } else { "rejected" })) { return 1; } }
             }
         }
+        // a major-type-6 head with the reserved additional information 28..31 is not CBOR, whatever follows
+        for ai in 28u8..=31 { for width in [0usize, 1, 2, 4, 8] {
+            n += 1;
+            let mut b = vec![0xc0 | ai]; let tg: u64 = $tag; b.extend_from_slice(&tg.to_be_bytes()[8 - width..]); b.extend($body);
+            if <$t>::from_tagged_slice(&b).is_ok() { if report("C14,C13", format!("{}::from_tagged_slice accepts {} (tag head with reserved additional information {})", $name, hex(&b), ai)) { return 1; } }
+        } }
         let v = <$t>::from_slice(&$body).unwrap();
         let mut want = head(6, $tag); want.extend(v.clone().to_vec().unwrap());
         if v.to_tagged_vec().unwrap() != want { if report("C14", format!("{}::to_tagged_vec is not tag {} applied to to_vec", $name, $tag)) { return 1; } }
@@ -1097,6 +1103,27 @@ pub fn probe_messages() -> i32 {
             }
         }
     }
+    // each header bucket is a header map of its own: IV in one and Partial IV in the other (either way round), or the same
+    // parameter in both, is well-formed for every message kind
+    {
+        let iv = Value::Map(vec![(Value::from(5), Value::Bytes(vec![1]))]); let piv = Value::Map(vec![(Value::from(6), Value::Bytes(vec![2]))]);
+        for (pm, um) in [(iv.clone(), piv.clone()), (piv.clone(), iv.clone()), (iv.clone(), iv.clone()), (piv.clone(), piv.clone())] {
+            let pb = Value::Bytes(ser(&pm));
+            let rcp = Value::Array(vec![pb.clone(), um.clone(), Value::Null]);
+            let sg = Value::Array(vec![pb.clone(), um.clone(), Value::Bytes(vec![1])]);
+            let cases: Vec<(usize, Value)> = vec![
+                (0, Value::Array(vec![pb.clone(), um.clone(), Value::Null, Value::Bytes(vec![1])])), (1, Value::Array(vec![pb.clone(), um.clone(), Value::Null, Value::Array(vec![sg.clone()])])), (2, sg.clone()),
+                (3, Value::Array(vec![pb.clone(), um.clone(), Value::Null, Value::Bytes(vec![1]), Value::Array(vec![rcp.clone()])])), (4, Value::Array(vec![pb.clone(), um.clone(), Value::Null, Value::Bytes(vec![1])])),
+                (5, Value::Array(vec![pb.clone(), um.clone(), Value::Null, Value::Array(vec![rcp.clone()])])), (6, Value::Array(vec![pb.clone(), um.clone(), Value::Null])), (7, rcp.clone())];
+            for (kind, v) in cases {
+                n += 1;
+                let got = match kind { 0 => CoseSign1::from_cbor_value(v.clone()).is_ok(), 1 => CoseSign::from_cbor_value(v.clone()).is_ok(), 2 => CoseSignature::from_cbor_value(v.clone()).is_ok(),
+                    3 => CoseMac::from_cbor_value(v.clone()).is_ok(), 4 => CoseMac0::from_cbor_value(v.clone()).is_ok(), 5 => CoseEncrypt::from_cbor_value(v.clone()).is_ok(),
+                    6 => CoseEncrypt0::from_cbor_value(v.clone()).is_ok(), _ => CoseRecipient::from_cbor_value(v.clone()).is_ok() };
+                if !got && msg_ref(kind, &v) { if report("C09,C08", format!("{} {}: crate rejects it; each header bucket is a well-formed header map on its own (IV / Partial IV exclusion is per map)", names[kind], hex(&ser(&v)))) { return 1; } }
+            }
+        }
+    }
     // order: recipients and signatures come back in wire order (three siblings with distinct key ids, at two levels)
     {
         let rk = |k: u8, kids: Vec<Value>| { let mut a = vec![Value::Bytes(vec![]), Value::Map(vec![(Value::from(4), Value::Bytes(vec![k]))]), Value::Null]; if !kids.is_empty() { a.push(Value::Array(kids)); } Value::Array(a) };
@@ -1196,7 +1223,10 @@ pub fn probe_keys() -> i32 {
         Value::Text("t".into()), Value::from(i64::MIN), Value::Integer(Integer::try_from(-(1i128 << 64)).unwrap()), Value::Null];
     let values: Vec<Value> = vec![Value::from(0), Value::from(1), Value::from(4), Value::from(7), Value::from(-7), Value::from(-70000), Value::Text("x".into()), Value::Bytes(vec![]), Value::Bytes(vec![1]),
         Value::Array(vec![]), Value::Array(vec![Value::from(1), Value::from(2)]), Value::Array(vec![Value::from(1), Value::from(1)]), Value::Array(vec![Value::from(11)]),
-        Value::Array(vec![Value::Text("op".into()), Value::from(3)]), Value::Array(vec![Value::Text("op".into()), Value::Text("op".into())]), Value::Null, Value::Map(vec![])];
+        Value::Array(vec![Value::Text("op".into()), Value::from(3)]), Value::Array(vec![Value::Text("op".into()), Value::Text("op".into())]), Value::Null, Value::Map(vec![]),
+        // text operations that spell a registered name are text all the same (no repeat with the integer of that name)
+        Value::Array(vec![Value::Text("sign".into()), Value::from(2)]), Value::Array(vec![Value::from(2), Value::Text("verify".into())]), Value::Array(vec![Value::Text("wrap key".into()), Value::Text("MAC create".into()), Value::from(1)]),
+        Value::Array((1..=10).map(Value::from).chain([Value::Text("a".into()), Value::Text("b".into())]).collect())];
     let mut maps: Vec<Vec<(Value, Value)>> = vec![vec![]];
     for l in &labels { for v in &values { maps.push(vec![(l.clone(), v.clone())]); maps.push(vec![(Value::from(1), Value::from(4)), (l.clone(), v.clone())]); maps.push(vec![(l.clone(), v.clone()), (Value::from(1), Value::Text("kt".into()))]); } }
     for l1 in &labels { for l2 in &labels { maps.push(vec![(Value::from(1), Value::from(2)), (l1.clone(), Value::Bytes(vec![7])), (l2.clone(), Value::Bytes(vec![8]))]); } }
@@ -1221,7 +1251,7 @@ pub fn probe_keys() -> i32 {
             let mut wops = match get(4) { Some(Value::Array(a)) => a, _ => vec![] };
             let key = |v: &Value| { let mut e = vec![]; ciborium::ser::into_writer(v, &mut e).unwrap(); e };
             ops.sort_by_key(key); wops.sort_by_key(key);
-            if ops != wops { if report("C10", format!("COSE_Key {}: key_ops differ from the wire", hex(&b))) { return 1; } }
+            if ops != wops { if report("C10,C17", format!("COSE_Key {}: key_ops differ from the wire", hex(&b))) { return 1; } }
             let rest: Vec<(Value, Value)> = m.iter().filter(|(kk, _)| !matches!(label_ref(kk), Some(Ok(x)) if (1..=5).contains(&x))).cloned().collect();
             let gotp: Vec<(Value, Value)> = k.params.iter().map(|(l, v)| (l.clone().to_cbor_value().unwrap(), v.clone())).collect();
             if ser(&Value::Map(rest.clone())) != ser(&Value::Map(gotp.clone())) { if report("C10", format!("COSE_Key {}: extra parameters differ from the wire (content or order)", hex(&b))) { return 1; } }
@@ -1256,6 +1286,33 @@ pub fn probe_keys() -> i32 {
             let r = CoseKeySet::from_cbor_value(Value::Array(a2));
             let ok = match (&r, first_is_dup) { (Err(CoseError::DuplicateMapKey), true) => true, (Err(CoseError::UnexpectedItem(_, _)), false) => true, _ => false };
             if !ok { if report("C10,C12", format!("COSE_KeySet with two bad elements: error {:?} is not that of the first bad element", r.err())) { return 1; } }
+        }
+    }
+    // a repeated label is reported as such even when the repeated entry's value is malformed too (the repeat is the first
+    // defect in wire order: all earlier entries are fine) - COSE_Key, header map, CWT claims set
+    {
+        let bad_second: Vec<(i64, Value, Value)> = vec![(2, Value::Bytes(vec![1]), Value::Bytes(vec![])), (2, Value::Bytes(vec![1]), Value::from(1)), (3, Value::from(-7), Value::Null), (3, Value::from(-7), Value::from(99999)),
+            (4, Value::Array(vec![Value::from(1)]), Value::Array(vec![])), (4, Value::Array(vec![Value::from(1)]), Value::Array(vec![Value::from(1), Value::from(1)])), (5, Value::Bytes(vec![1]), Value::Bytes(vec![])), (1, Value::from(4), Value::Null)];
+        for (l, good, bad) in &bad_second {
+            n += 1;
+            let m = if *l == 1 { vec![(Value::from(1), good.clone()), (Value::from(1), bad.clone())] } else { vec![(Value::from(1), Value::from(4)), (Value::from(*l), good.clone()), (Value::from(*l), bad.clone())] };
+            let r = CoseKey::from_cbor_value(Value::Map(m.clone()));
+            if !matches!(r, Err(CoseError::DuplicateMapKey)) { if report("C12", format!("COSE_Key {} (label {} twice, second value malformed): got {:?}, the first defect in wire order is the repeated label", hex(&ser(&Value::Map(m))), l, r.map(|_| "Ok"))) { return 1; } }
+        }
+        let hbad: Vec<(i64, Value, Value)> = vec![(1, Value::from(-7), Value::Null), (2, Value::Array(vec![Value::from(1)]), Value::Array(vec![])), (3, Value::from(0), Value::Text("".into())), (4, Value::Bytes(vec![1]), Value::Bytes(vec![])),
+            (5, Value::Bytes(vec![1]), Value::Null), (6, Value::Bytes(vec![1]), Value::Bytes(vec![])), (7, Value::Array(vec![Value::Bytes(vec![]), Value::Map(vec![]), Value::Bytes(vec![])]), Value::Array(vec![]))];
+        for (l, good, bad) in &hbad {
+            n += 1;
+            let m = vec![(Value::from(*l), good.clone()), (Value::from(*l), bad.clone())];
+            let r = Header::from_cbor_value(Value::Map(m.clone()));
+            if !matches!(r, Err(CoseError::DuplicateMapKey)) { if report("C12", format!("header map {} (label {} twice, second value malformed): got {:?}, the first defect in wire order is the repeated label", hex(&ser(&Value::Map(m))), l, r.map(|_| "Ok"))) { return 1; } }
+        }
+        let cbad: Vec<(i64, Value, Value)> = vec![(1, Value::Text("i".into()), Value::from(1)), (4, Value::from(1), Value::Text("x".into())), (7, Value::Bytes(vec![1]), Value::Null)];
+        for (l, good, bad) in &cbad {
+            n += 1;
+            let m = vec![(Value::from(*l), good.clone()), (Value::from(*l), bad.clone())];
+            let r = cwt::ClaimsSet::from_cbor_value(Value::Map(m.clone()));
+            if !matches!(r, Err(CoseError::DuplicateMapKey)) { if report("C12", format!("CWT claims set {} (claim {} twice, second value malformed): got {:?}, the first defect in wire order is the repeated name", hex(&ser(&Value::Map(m))), l, r.map(|_| "Ok"))) { return 1; } }
         }
     }
     println!("probe keys: {} cases, no disagreement", n);
@@ -1424,6 +1481,20 @@ pub fn probe_builders() -> i32 {
     if k.kty != KeyType::Assigned(iana::KeyType::EC2) || k.key_id != vec![9] || k.key_ops.len() != 1 || k.alg.is_some() || !k.base_iv.is_empty()
         || k.params != vec![(Label::Int(-1), Value::from(1)), (Label::Int(-2), Value::Bytes(vec![1])), (Label::Int(-3), Value::Bytes(vec![2])), (Label::Int(-4), Value::Bytes(vec![3]))] {
         if report("C19", format!("CoseKeyBuilder::new_ec2_priv_key(..).key_id.add_key_op x2: {:?}", k)) { return 1; } }
+    // constructors: the key type is what the constructor's name says, for every curve value
+    for crv in [iana::EllipticCurve::P_256, iana::EllipticCurve::P_384, iana::EllipticCurve::P_521, iana::EllipticCurve::X25519, iana::EllipticCurve::X448, iana::EllipticCurve::Ed25519, iana::EllipticCurve::Ed448, iana::EllipticCurve::Secp256k1, iana::EllipticCurve::Reserved] {
+        n += 3;
+        let ks = [CoseKeyBuilder::new_ec2_pub_key(crv, vec![1], vec![2]).build(), CoseKeyBuilder::new_ec2_pub_key_y_sign(crv, vec![1], true).build(), CoseKeyBuilder::new_ec2_priv_key(crv, vec![1], vec![2], vec![3]).build()];
+        for (i, k) in ks.iter().enumerate() {
+            let crv_ok = k.params.first() == Some(&(Label::Int(-1), Value::from(crv as i64)));
+            if k.kty != KeyType::Assigned(iana::KeyType::EC2) || !crv_ok || k.params.len() != [3, 3, 4][i] { if report("C19", format!("CoseKeyBuilder EC2 constructor #{} with curve {:?}: kty {:?}, params {:?}", i, crv, k.kty, k.params)) { return 1; } }
+        }
+    }
+    { n += 2;
+      let k = CoseKeyBuilder::new_symmetric_key(vec![7]).build();
+      if k.kty != KeyType::Assigned(iana::KeyType::Symmetric) || k.params != vec![(Label::Int(-1), Value::Bytes(vec![7]))] { if report("C19", format!("CoseKeyBuilder::new_symmetric_key: {:?}", k)) { return 1; } }
+      let k = CoseKeyBuilder::new_okp_key().build();
+      if k.kty != KeyType::Assigned(iana::KeyType::OKP) || !k.params.is_empty() { if report("C19", format!("CoseKeyBuilder::new_okp_key: {:?}", k)) { return 1; } } }
     // adders append: extra parameters / claims / critical labels / key operations keep call order, whatever their labels
     {
         n += 4;
@@ -1463,7 +1534,7 @@ pub fn probe_roundtrip() -> i32 {
         vec![0xa9, 0x01, 0x26, 0x02, 0x81, 0x04, 0x03, 0x18, 0x3c, 0x04, 0x41, 0x01, 0x05, 0x41, 0x02, 0x00, 0x01, 0x08, 0xf6, 0x38, 0x63, 0x20, 0x61, b'z', 0x1a, 0x00, 0x01, 0x00, 0x00],
         vec![0xa2, 0x06, 0x42, 0x01, 0x02, 0x03, 0x63, b'a', b'/', b'b'], vec![0xa1, 0x00, 0xa1, 0x00, 0x80],
         // text content types the decoder accepts: inner blanks, parameters, non-ASCII
-        [vec![0xa1u8, 0x03], tstr("a/b c")].concat(), [vec![0xa1u8, 0x03], tstr("text/plain; charset=utf-8")].concat(), [vec![0xa1u8, 0x03], tstr("é/ü x")].concat(), vec![0xa2, 0x19, 0x01, 0x00, 0x01, 0x18, 0x21, 0x81, 0x41, 0x00], vec![0xa1, 0x07, 0x82, 0x83, 0x40, 0xa0, 0x40, 0x83, 0x41, 0xa0, 0xa1, 0x05, 0x41, 0x01, 0x41, 0x02]];
+        [vec![0xa1u8, 0x03], tstr("a/b c")].concat(), [vec![0xa1u8, 0x03], tstr("text/plain; charset=utf-8")].concat(), [vec![0xa1u8, 0x03], tstr("é/ü x")].concat(), [vec![0xa1u8, 0x03], tstr("application/CBOR")].concat(), [vec![0xa1u8, 0x03], tstr("Multipart/Mixed; boundary=AbCdEf")].concat(), vec![0xa2, 0x19, 0x01, 0x00, 0x01, 0x18, 0x21, 0x81, 0x41, 0x00], vec![0xa1, 0x07, 0x82, 0x83, 0x40, 0xa0, 0x40, 0x83, 0x41, 0xa0, 0xa1, 0x05, 0x41, 0x01, 0x41, 0x02]];
     // C02: a decoded value written again carries the protected byte string exactly as received
     macro_rules! carries { ($t:ty, $bytes:expr, $prot:expr, $name:expr) => {{
         let b: Vec<u8> = $bytes;
@@ -1626,6 +1697,16 @@ pub fn probe_roundtrip() -> i32 {
                 Err(e) => { if report("C11", format!("COSE_Key with {} does not encode: {:?}", what, e)) { return 1; } }
             }
         }
+    }
+    // a key set is the array of its keys' own encodings, each as it is held (no re-ordering of a member's parameters)
+    {
+        n += 1;
+        let k1 = CoseKeyBuilder::new_symmetric_key(vec![1]).param(-70000, Value::Null).param(-3, Value::from(1)).param(100, Value::Null).build();
+        let k2 = CoseKeyBuilder::new_okp_key().param(-2, Value::Bytes(vec![2])).param(-1, Value::from(6)).build();
+        let set = CoseKeySet(vec![k1.clone(), k2.clone()]);
+        let want = Value::Array(vec![k1.clone().to_cbor_value().unwrap(), k2.clone().to_cbor_value().unwrap()]);
+        if set.clone().to_cbor_value().ok() != Some(want.clone()) { if report("C11", format!("COSE_KeySet encodes to {:?}, the array of its keys' encodings is {}", set.clone().to_cbor_value().ok().map(|v| hex(&ser(&v))), hex(&ser(&want)))) { return 1; } }
+        if CoseKeySet::from_cbor_value(want.clone()).ok() != Some(set.clone()) { if report("C11", format!("COSE_KeySet {} does not decode back to the set that was encoded", hex(&ser(&want)))) { return 1; } }
     }
     // time claims keep their kind (integer vs float) across encode/decode
     for t in [cwt::Timestamp::WholeSeconds(2), cwt::Timestamp::WholeSeconds(-1), cwt::Timestamp::FractionalSeconds(2.0), cwt::Timestamp::FractionalSeconds(1.5),
